@@ -128,7 +128,7 @@ def validB (mode : Mode) (a b : Seq) (aln : Aln) : Bool :=
     match walk (firstA aln, firstB aln) aln with
     | some (i1, j1) => decide (i1 ≤ a.length) && decide (j1 ≤ b.length)
     | none => false
-  | _ => walk (0, 0) aln == some (a.length, b.length)
+  | _ => decide (walk (0, 0) aln = some (a.length, b.length))
 
 /-! ## Scores -/
 
@@ -353,8 +353,8 @@ def AffCell.best (c : AffCell) : Option Int := omax c.m (omax c.g1 c.g2)
 def optAff (mode : Mode) (M : Mat) (go ge : Int) (a b : Seq) : Int :=
   match mode with
   | .local =>
-    listMax 0 ((List.range (a.length + 1)).flatMap fun i =>
-      (List.range (b.length + 1)).filterMap fun j => ((affRec .local M go ge a b).val i j).m)
+    listMax 0 (((List.range (a.length + 1)).flatMap fun i =>
+      (List.range (b.length + 1)).map ((affRec .local M go ge a b).val i)).filterMap (·.m))
   | _ => (((affRec mode M go ge a b).val a.length b.length).best).getD 0
 
 def fillAff (mode : Mode) (M : Mat) (go ge : Int) (a b : Seq) : List (List AffCell) :=
@@ -471,9 +471,9 @@ def raisesIndexError (mode : Mode) (gap : Gap) (a b : Seq) : Bool :=
 also equal to the positional form the optimality theorem is stated for), and not above the optimum. -/
 def checkAln (a b : Seq) (M : Mat) (gap : Gap) (mode : Mode) (aln : Aln) (sc : Int) : Bool :=
   validB mode a b aln
-  && (score mode gap M a b aln == sc)
+  && decide (score mode gap M a b aln = sc)
   && (match mode, gap with
-      | .semi, .lin g => scoreSemiPos M g a b (0, 0) aln == sc
+      | .semi, .lin g => decide (scoreSemiPos M g a b (0, 0) aln = sc)
       | _, .lin _ => true
       | _, .aff _ _ => noAbutB aln)
   && decide (sc ≤ optT mode gap M a b)
